@@ -53,6 +53,10 @@ def check(run):
     request(R)
     limit(R)
     headers(R)
+    R.rule('C10.negotiated', 'Ready reports what the reply negotiated: extension tokens, option names and values are '
+                             'compared without surrounding white space', 3)
+    from . import C06
+    C06.parse_ext(R, RID='C10.negotiated')
 
 
 def _eq_lit(l):
@@ -553,6 +557,31 @@ def headers(R):
     hp = [p_ for p_ in f.params if p_ != 'self'][0]
     splits = [(n, c) for n in gi.live_nodes() for c in n.calls if isinstance(c.func, ast.Attribute) and c.func.attr == 'split'
               and c.args and isinstance(c.args[0], ast.Constant) and c.args[0].value == b'\r\n']
+    # ... and a header line ends at CRLF only: splitlines() / split(b'\n') also cut at a bare LF or CR, so text inside another
+    # header's value counts as a header of its own
+    loose = []
+    for n_ in gi.live_nodes():
+        for c_ in n_.calls:
+            if not isinstance(c_.func, ast.Attribute) or c_.func.attr not in ('splitlines', 'split'):
+                continue
+            if c_.func.attr == 'split' and not (c_.args and isinstance(c_.args[0], ast.Constant)
+                                                and c_.args[0].value in (b'\n', b'\r', '\n', '\r')):
+                continue
+            r_ = c_.func.value
+            o_, on_ = rdi.origin(n_, r_) if isinstance(r_, ast.Name) else (r_, n_)
+            while isinstance(o_, ast.Call) and isinstance(o_.func, (ast.Name, ast.Attribute)) and (
+                    (isinstance(o_.func, ast.Name) and o_.func.id in ('bytes', 'bytearray') and len(o_.args) == 1)
+                    or (isinstance(o_.func, ast.Attribute) and o_.func.attr in ('decode', 'strip', 'rstrip'))):
+                o_ = o_.args[0] if isinstance(o_.func, ast.Name) else o_.func.value
+                if isinstance(o_, ast.Name):
+                    o_, on_ = rdi.origin(on_, o_)
+            if isinstance(o_, ast.Name) and o_.id == hp:
+                loose.append(c_)
+    R.ob('C10.headers', 'header lines end at CRLF only', not loose,
+         'the header block is cut into lines with %s, which also breaks at a bare LF / CR: text inside another header\'s value '
+         '(X-Note: a\\nSec-WebSocket-Accept: ...) is taken for a header line and a reply without a real Accept header is '
+         'granted Ready' % [U(c_) for c_ in loose][:1], func=f, node=(loose[0] if loose else None),
+         construct='header block line split')
     need(len(splits) >= 1, 'Response.__init__: split of the header block into lines not found')
     for (n, c) in splits:
         recv_ = c.func.value
